@@ -230,11 +230,16 @@ def main(argv=None):
     trusted = sorted({m for r in results for m in r.used_models})
     bounded_summary = {n: {kk: vv for kk, vv in b.items() if kk != "failures"} | {"failures": len(b.get("failures", []))}
                        for n, b in bounded.items() if not n.startswith("__")}
+    backends = {}
+    for r in results:
+        for o in r.obligations:
+            if o["status"] == "unsat":
+                backends[o.get("backend", "?")] = backends.get(o.get("backend", "?"), 0) + 1
     samples = []
     for r in results[:6]:
         for o in r.obligations[:3]:
             samples.append({"contract": r.contract, "obligation": o["name"], "case": o["case"], "path": o["path"],
-                            "status": o["status"], "solver_s": o["time"]})
+                            "status": o["status"], "solver_s": o["time"], "backend": o.get("backend")})
     ev = {
         "property_id": prop, "tier": tier, "seed": seed, "level": "proof",
         "coverage": {
@@ -250,7 +255,7 @@ def main(argv=None):
             "undecided": undecided_names,
             "bounded_stand_ins": bounded_summary,
             "samples": samples,
-            "backend": "z3 (python API); see functions_under_contract[].solver_s",
+            "backends": backends,
             "solver_s": round(sum(r.solver_time for r in results), 2),
         },
         "assumptions": ASSUMED_SEMANTICS + trusted,
